@@ -132,6 +132,14 @@ inductive Validated where
   | entries (es : List Entry)
   deriving Repr, DecidableEq
 
+/-- `if constant_v is not None and next_interp.constant_value((t, v), (next_t, next_v)) != constant_v:
+constant_v = None` — PF-01 repaired: the segment `(cur, nx)` is interpolated with `nx.interp` (the
+pinned tree asks `cur.interp`) -/
+def constStep (constV : Option Rat) (cur nx : Entry) : Option Rat :=
+  match constV with
+  | some c => if segConst nx.interp cur nx = some c then some c else none
+  | none => none
+
 /-- the `for next_t, next_v, next_interp in input_iter` loop.  `prev` is the last kept entry
 (`previous_t`, `previous_v`), `cur` is `(t, v, interp)`, `out` the output table. -/
 def validateLoop (prev cur : Entry) (constV : Option Rat) (out : List Entry) :
@@ -139,10 +147,7 @@ def validateLoop (prev cur : Entry) (constV : Option Rat) (out : List Entry) :
   | [] => .ok (cur, constV, out)
   | nx :: rest =>
     if nx.t < cur.t then .error .valueError else
-    -- PF-01 repaired: the segment (cur, nx) is interpolated with `nx.interp`
-    let constV' := match constV with
-      | some c => if segConst nx.interp cur nx = some c then some c else none
-      | none => none
+    let constV' := constStep constV cur nx
     if (prev.t ≠ cur.t ∨ cur.t ≠ nx.t) ∧ (prev.v ≠ cur.v ∨ cur.v ≠ nx.v) then
       validateLoop cur nx constV' (out ++ [cur]) rest
     else
